@@ -319,6 +319,18 @@ HkFails(e) ==
               ELSE IF hs.hasPrev /\ okFor(Decode(hs.prev)) THEN {}
               ELSE IF m \notin Legal(root) THEN {<<"C03", "search-sent-illegal-move", D(<<ToFen(root, 0, 1), m>>)>>}
               ELSE {<<"C03", "search-sent-wrong-board", D(<<ToFen(root, 0, 1), m>>)>>}
+    [] e.h = "srch_print" ->
+         \* Walleye.tla: SrchPrint follows SrchSend of the same improvement; after PollExit an answered search prints at most
+         \* the one line it still owes (OrphanLastLine).  The k-th line of a search belongs to the k-th board it handed over.
+         LET owedPrev == IF hs.hasPrev /\ Has(hs, "owedPrev") THEN hs.owedPrev ELSE 0
+             Txt(b) == {MoveText(<<b.d[1], b.d[2], 0>>), MoveText(<<b.d[1], b.d[2], Kind(b.d[3])>>)}
+         IN IF hs.active
+            THEN IF ~WellFormed(Decode(hs.root)) THEN {}
+                 ELSE IF hs.nprint < Len(hs.sent) /\ e.pv1 \in Txt(hs.sent[hs.nprint + 1]) THEN {}
+                 ELSE IF owedPrev > 0 THEN {}
+                 ELSE {<<"C07", "line-without-a-board-handed-over", D(<<e.seq, e.pv1>>)>>}
+            ELSE IF owedPrev > 0 \/ ~hs.hasPrev THEN {}
+                 ELSE {<<"C07", "late-line-not-owed", D(<<e.seq, e.pv1>>)>>}
     [] e.h = "io_recv" ->
          IF ~hs.active THEN {<<"C03", "recv-without-go", D(e.seq)>>}
          ELSE IF hs.nrecv >= Len(hs.sent) THEN {<<"C03", "received-before-sent", D(e.seq)>>}
@@ -332,8 +344,14 @@ HkFails(e) ==
                     ELSE IF ~SameBoard(hs.sent[hs.nrecv], e.board) THEN {<<"C03", "answer-is-not-last-received", D(e.seq)>>} ELSE {})
     [] OTHER -> {}
 HkStep(e) ==
-  CASE e.h = "go_start" -> [active |-> TRUE, root |-> e.board, sent |-> <<>>, nrecv |-> 0, hasPrev |-> hs.hasPrev,
-                            prev |-> IF hs.hasPrev THEN hs.prev ELSE e.board]
+  CASE e.h = "go_start" -> [active |-> TRUE, root |-> e.board, sent |-> <<>>, nrecv |-> 0, nprint |-> 0, hasPrev |-> hs.hasPrev,
+                            prev |-> IF hs.hasPrev THEN hs.prev ELSE e.board,
+                            owedPrev |-> IF hs.hasPrev /\ Has(hs, "owedPrev") THEN hs.owedPrev ELSE 0]
+    [] e.h = "srch_print" ->
+         LET Txt(b) == {MoveText(<<b.d[1], b.d[2], 0>>), MoveText(<<b.d[1], b.d[2], Kind(b.d[3])>>)} IN
+         IF hs.active /\ hs.nprint < Len(hs.sent) /\ e.pv1 \in Txt(hs.sent[hs.nprint + 1]) THEN [hs EXCEPT !.nprint = @ + 1]
+         ELSE IF hs.hasPrev /\ Has(hs, "owedPrev") /\ hs.owedPrev > 0 THEN [hs EXCEPT !.owedPrev = @ - 1]
+         ELSE hs
     [] e.h = "srch_send" ->
          \* only sends of the current search enter the model's channel
          IF hs.active /\ WellFormed(Decode(hs.root))
@@ -341,7 +359,7 @@ HkStep(e) ==
          THEN [hs EXCEPT !.sent = Append(@, e.board)] ELSE hs
     [] e.h = "io_recv" -> IF hs.active THEN [hs EXCEPT !.nrecv = @ + 1] ELSE hs
     \* after the loop is left the search thread may still send into the closed channel: those sends belong to no go
-    [] e.h = "io_exit" -> IF hs.active THEN [active |-> FALSE, hasPrev |-> TRUE, prev |-> hs.root] ELSE hs
+    [] e.h = "io_exit" -> IF hs.active THEN [active |-> FALSE, hasPrev |-> TRUE, prev |-> hs.root, owedPrev |-> Len(hs.sent) - hs.nprint] ELSE hs
     [] OTHER -> hs
 
 Fails(e) ==
@@ -367,7 +385,7 @@ Step(e) ==
     [] OTHER -> s
 
 ZeroCnt == [resets |-> 0, ins |-> 0, gos |-> 0, bestmoves |-> 0, infos |-> 0, readyoks |-> 0, exits |-> 0, slices |-> 0,
-            posdumps |-> 0, formula_same |-> 0, formula_other |-> 0, terminal_gos |-> 0, probes |-> 0, hook_events |-> 0, hook_recvs |-> 0, foreign_lines |-> 0]
+            posdumps |-> 0, formula_same |-> 0, formula_other |-> 0, terminal_gos |-> 0, probes |-> 0, hook_events |-> 0, hook_recvs |-> 0, hook_prints |-> 0, foreign_lines |-> 0]
 Count(c, e) ==
   CASE e.ev = "reset" -> [c EXCEPT !.resets = @ + 1]
     [] e.ev = "in" -> [c EXCEPT !.ins = @ + 1, !.gos = @ + (IF Has(e, "go") THEN 1 ELSE 0),
@@ -382,7 +400,8 @@ Count(c, e) ==
                              sb == IF CodeSliceOf(tc.btime, tc.binc, Mtg(tc), "fixed") = e.slice_b THEN 1 ELSE 0 IN
                          [c EXCEPT !.slices = @ + 1, !.formula_same = @ + sw + sb, !.formula_other = @ + 2 - sw - sb]
     [] e.ev = "posdump" -> [c EXCEPT !.posdumps = @ + 1]
-    [] e.ev = "hk" -> [c EXCEPT !.hook_events = @ + 1, !.hook_recvs = @ + (IF e.h = "io_recv" THEN 1 ELSE 0)]
+    [] e.ev = "hk" -> [c EXCEPT !.hook_events = @ + 1, !.hook_recvs = @ + (IF e.h = "io_recv" THEN 1 ELSE 0),
+                              !.hook_prints = @ + (IF e.h = "srch_print" THEN 1 ELSE 0)]
     [] OTHER -> c
 
 Init == l = 1 /\ bad = {} /\ cnt = ZeroCnt /\ s = Fresh /\ memo = <<>> /\ hs = NoHs
